@@ -23,6 +23,7 @@ def opener (sid : Nat) : String := if sid % 2 == 0 then "c" else "s"
 def step (s : St) (op obs : List String) : St × Option String :=
   match op with
   | ["cfg", _, _] => (s, none)
+  | "wire" :: _ => (s, none)
   | ["end"] => (s, none)
   | ["close", _] => (s, none)
   | "serr" :: _ => (s, none)
@@ -90,6 +91,6 @@ def step (s : St) (op obs : List String) : St × Option String :=
 
 def model : Model St := { init := [], step := step }
 
-def entries : List (String × IO UInt32) := [("c02_net", runModel model), ("c02_inject", runModel model)]
+def entries : List (String × IO UInt32) := [("c02_net", runModel model), ("c02_inject", runModel model), ("c02_wire", runModel model)]
 
 end GmQuic.Drv.C02
